@@ -6,7 +6,7 @@ import os
 
 import vlib
 
-PROPS = ["C03", "C06", "C07", "C01x"]
+PROPS = ["C03", "C06", "C07"]
 
 # per property and tier: list of (cfg, mode)
 CONFIGS = {
@@ -14,13 +14,12 @@ CONFIGS = {
             "thorough": [("ControllerMC_share.cfg", "edges"), ("ControllerMC_share_sim.cfg", "sim")]},
     "C02": {"quick": [("ControllerMC_req.cfg", "edges"), ("ControllerMC_dual.cfg", "edges")],
             "thorough": [("ControllerMC_req.cfg", "edges"), ("ControllerMC_dual.cfg", "edges"), ("ControllerMC_dual_sim.cfg", "sim")]},
-    "C03": {"quick": [("ControllerMC_stable.cfg", "edges")],
+    "C03": {"quick": [("ControllerMC_stable.cfg", "edges"), ("ControllerMC_stable_il.cfg", "edges")],
             "thorough": [("ControllerMC_stable.cfg", "edges"), ("ControllerMC_stable_sim.cfg", "sim")]},
     "C06": {"quick": [("ControllerMC_crash.cfg", "edges")],
             "thorough": [("ControllerMC_crash.cfg", "edges"), ("ControllerMC_crash_sim.cfg", "sim")]},
     "C07": {"quick": [("ControllerMC_starve.cfg", "edges")],
             "thorough": [("ControllerMC_starve.cfg", "edges"), ("ControllerMC_starve_sim.cfg", "sim")]},
-    "C01x": {"quick": [("ControllerMC_share.cfg", "edges")], "thorough": []},
     "C11": {"quick": [("ControllerMC_share.cfg", "edges")],
             "thorough": [("ControllerMC_share.cfg", "edges"), ("ControllerMC_crash_sim.cfg", "sim")]},
 }
@@ -35,9 +34,32 @@ def mapping():
     return m
 
 
-def signature(fail, obs):
-    """Stable description of a failure: predicate, the kind of step, and for the history-dependent
-    predicates the kind of operation that preceded."""
+def release_kind(walk_obs, k):
+    """For a starvation failure at observation k: what kind of memory change most recently made
+    room (the latest step before k at which some allocation shrank, moved, changed ports or key, or
+    the loaded pools changed).  Only used to name the failure, never to decide it."""
+    for r in range(k, 0, -1):
+        a, b = walk_obs[r - 1], walk_obs[r]
+        if a["ctl"] != b["ctl"]:
+            return "pools"
+        for s, m in a["mem"].items():
+            n = b["mem"].get(s)
+            if n is None:
+                return "removed"
+            if sorted(n["ips"]) != sorted(m["ips"]):
+                return "ips"
+            if n["ports"] != m["ports"]:
+                return "ports"
+            if (n["sk"], n["bk"]) != (m["sk"], m["bk"]):
+                return "key"
+    return "none"
+
+
+def signature(fail, obs, walk_obs=None, k=None):
+    """Stable description of a failure: predicate and the kind of step; for starvation, what
+    released the address."""
+    if fail == "C07.NoStarvation" and walk_obs is not None:
+        return "%s|release=%s" % (fail, release_kind(walk_obs, k))
     return "%s|op=%s" % (fail, obs.get("op"))
 
 
@@ -159,7 +181,7 @@ def confirm(chk, mine, steps, inits, domain_path, byw):
         o = byw[w][f["step"]]
         for name in f["fails"]:
             if name.startswith(prefix):
-                reps.setdefault((name, o["op"]), []).append((w, f))
+                reps.setdefault(signature(name, o, byw[w], f["step"]), []).append((w, f))
     sel = {}
     for key, lst in reps.items():
         for w, f in lst[:3]:
@@ -185,7 +207,7 @@ def confirm(chk, mine, steps, inits, domain_path, byw):
             if not name.startswith(prefix):
                 continue
             if name in again.get(w, set()):
-                chk.fail(signature(name, o), name,
+                chk.fail(signature(name, o, byw[w], f["step"]), name,
                          detail={"observation": o, "history": history_kind(byw[w], f["step"])},
                          scenario={"family": "ctrl", "init": inits[n], "steps": steps[n]})
             else:
@@ -213,4 +235,5 @@ def replay(chk, path):
     for f in fails:
         for name in f["fails"]:
             if name.startswith(chk.prop + "."):
-                chk.fail(signature(name, obs[f["line"] - 1]), name, detail={"observation": obs[f["line"] - 1]}, scenario=sc)
+                chk.fail(signature(name, obs[f["line"] - 1], obs, f["line"] - 1), name,
+                         detail={"observation": obs[f["line"] - 1]}, scenario=sc)
